@@ -342,6 +342,21 @@ def eval_context(case):
     first = schemes[0]
     p = PW
     q = PW + "x"
+    derive = case.get("derive")
+    if derive:
+        # the application hands a COPY of the context on (deep-copied settings object, pickled to a worker process),
+        # before or after the original was used: the copy is a libpass context like any other
+        import copy
+        import pickle
+
+        comp = f"context:{derive}"
+        try:
+            if derive.endswith("_used"):
+                C.needs_update(sample_hashes(schemes[-1], "libpass", p, seed))
+                C.verify(p, sample_hashes(first, "passlib", p, seed))
+            C = copy.deepcopy(C) if derive.startswith("deepcopy") else copy.copy(C) if derive.startswith("copy") else pickle.loads(pickle.dumps(C))
+        except Exception as e:  # noqa: BLE001
+            return [(f"C20|{comp}|derive:raises:{_exc(e)}", f"{derive} of CryptContext({name}) raised {e!r}")]
 
     def component_ok(fmt, h):
         try:
@@ -572,7 +587,7 @@ def work(task):
         elif part == "farcost":
             acc.cls(part, case["fmt"], case["cost"])
         else:
-            acc.cls(part, ">".join(case["schemes"]))
+            acc.cls(part, ">".join(case["schemes"]), case.get("derive"))
             acc.axis("context_size", len(case["schemes"]))
         acc.axis("part", part)
         vs = EVALS[part](case)
@@ -632,6 +647,12 @@ def run(ctx):
         for lst in ([f, f + "@1"], [f + "@1", f], [f, g, f + "@1"], [g, f, f + "@1"]):
             cases.append({"part": "context", "schemes": lst, "seed": seed})
             n_ctx += 1
+    # copies of a context (deep copy / shallow copy / pickle round trip), taken before and after the original was used
+    for n in (2, 3):
+        for lst in list(itertools.permutations(FORMATS, n))[:: (7 if n == 3 else 3)]:
+            for derive in ("deepcopy_used", "pickle_used", "copy_used", "deepcopy_fresh", "pickle_fresh"):
+                cases.append({"part": "context", "schemes": list(lst), "seed": seed, "derive": derive})
+                n_ctx += 1
     ctx.log(f"{n_inter} interop cases, {n_id} identify cells, {n_ctx} context lists, {len(cases) - n_inter - n_id - n_ctx} fresh")
     shards = [cases[i::320] for i in range(320)]
     acc = core.pmap(work, [{"cases": s} for s in shards if s])
